@@ -2,7 +2,11 @@
 
 package deps
 
-import "mltwist/pkg/model"
+import (
+	"mltwist/internal/parser"
+	"mltwist/pkg/expr"
+	"mltwist/pkg/model"
+)
 
 // VerifEdges lists the dependency edges of a block as pairs of original
 // addresses (first must stay before second).
@@ -15,3 +19,7 @@ func VerifEdges(b Block) [][2]model.Addr {
 	}
 	return out
 }
+
+// VerifJumps returns the jump targets the code model derives for an instruction
+// (the alternatives of its instruction-pointer writes without the fall-through).
+func VerifJumps(ins parser.Instruction) []expr.Expr { return jumps(ins) }
